@@ -3,6 +3,9 @@ import HpxVerif.Props.C16
 import HpxVerif.Lemmas.PolyReal6
 import HpxVerif.Model.PolyExact
 import HpxVerif.Lemmas.Tightness3
+import HpxVerif.Lemmas.PolyCompose6
+import HpxVerif.Lemmas.PolyCompose2
+import HpxVerif.Lemmas.PolyCompose4
 
 set_option autoImplicit false   -- an unknown identifier in a statement is an error, never a new variable
 
@@ -436,5 +439,114 @@ theorem poly_emit_rule (cfg : Cfg) (target : Nat) (poly : Polygon α) (sortedHas
 
 
 end EmitRule
+
+
+/-! ## the statement of C12 composed over ℝ, on the output of `polygon_coverage` itself (both modes)
+
+`full_cells_vertices_and_centre_inside_convex`: for a convex polygon (no pole, open hemisphere), every cell flagged full has
+its four vertices AND its centre geometrically inside (inside all the edge half-spaces), provided the vertices are not on a
+boundary great circle.  The code tests the four vertices only; the centre follows (`centre_inside_of_vertices_inside`:
+the centre of EVERY cell of the sphere is a positive combination of its vertices).  `full_flag_not_whole_cell` delimits
+the flag: cell sides are not great-circle arcs, and a convex triangle exists (exact rational unit vectors) for which cell
+1/23 is classified full, its vertices and centre are inside, and the point `sph_coo(1, 23, 2/3, 0)` of the cell is OUTSIDE -
+the full flag of polygon coverage cannot mean "the whole cell" (the property claims vertices and centre only).
+`vertex_cells_kept_real`: the cell of every vertex (and of every special point in the exact mode) is kept, the remaining
+hypothesis - the start cells contain its ancestor - made explicit per vertex; discharged when the start is the 12 base
+cells. -/
+
+section Composed
+open Hpx Hpx.Cover Hpx.Bmoc Hpx.Sph Real Hpx.Proj Hpx.CellReal Hpx.EnvelopeReal Hpx.TopoLift Hpx.EnvelopePolar Hpx.PolyCompose
+
+/-- **T1 + T2: the property as stated, for convex polygons** (ℝ, both modes, every depth `≤ 29`).  Every cell of the BMOC
+    returned by `polygon_coverage` that carries the full flag — wherever it is on the sphere — has `vertices` and `center`
+    succeed, and if its four vertices are not on the boundary of the polygon then **its four vertices AND ITS CENTRE are
+    strictly inside all the edge half-spaces**.  (The code tests the four vertices only; the centre follows.) -/
+theorem full_cells_vertices_and_centre_inside_convex (cfg : Cfg) (depth : Nat) (lls : List (ℝ × ℝ)) (exact : Bool) (b : Bmoc.BMOC)
+    (hr : ∀ ll ∈ lls, 0 ≤ ll.1 ∧ ll.1 < 2 * π ∧ -(π / 2) ≤ ll.2 ∧ ll.2 ≤ π / 2)
+    (o : ℝ) (hcv : ConvexNoPole o (lls.map cooOf))
+    (h : Sph.polygonCoverage cfg depth lls exact = some b) :
+    ∃ cells : List Bmoc.Cell, b = { dmax := depth, entries := cells.map (Bmoc.encode depth) } ∧
+      ∀ c ∈ cells, c.full = true →
+        ∃ s e n w ctr : ℝ × ℝ, Hash.vertices (α := ℝ) cfg c.depth c.hash = some [s, e, n, w] ∧
+          Hash.center (α := ℝ) cfg c.depth c.hash = some ctr ∧
+          ((∀ v ∈ [s, e, n, w], OffBoundary o (lls.map cooOf) (cooOf v)) →
+            (∀ v ∈ [s, e, n, w], InsideAll o (lls.map cooOf) (cooOf v)) ∧ InsideAll o (lls.map cooOf) (cooOf ctr)) :=
+  Hpx.PolyCompose.full_cells_vertices_and_centre_inside_convex cfg depth lls exact b hr o hcv h
+
+/-- **T2, the centre, EVERY cell** (every depth `≤ 29`, every cell number; equatorial band, both polar caps, both transition
+    rings).  `vertices` and `center` succeed and, whatever the polygon (any vertex list `vs`, any winding `o` — no convexity
+    is needed beyond the fact that a polygon "inside all the edge half-spaces" is an intersection of half-spaces): if the
+    four vertices are strictly inside all the edge half-spaces, so is the centre.  The centre is always in the open cone
+    spanned by three of the four vertices: S–N (one meridian) in the band, S–E–W in the north, N–E–W in the south. -/
+theorem centre_inside_of_vertices_inside (cfg : Cfg) (d h : ℕ) (hd : d ≤ 29) (hh : h < 12 * 4 ^ d) :
+    ∃ (s e n w c : ℝ × ℝ), Hash.vertices (α := ℝ) cfg d h = some [s, e, n, w] ∧ Hash.center (α := ℝ) cfg d h = some c ∧
+      ∀ (o : ℝ) (vs : List (Coo ℝ)), (∀ v ∈ [s, e, n, w], InsideAll o vs (cooOf v)) → InsideAll o vs (cooOf c) :=
+  Hpx.PolyCompose.centre_inside_of_vertices_inside cfg d h hd hh
+
+/-- **T3 over the reals** (`vertex_cells_kept_real`), positions in the canonical ranges, both modes, every depth `≤ 29`: what
+    `vertex_cells_kept_modes` says, plus: the vertex cells `hs` are cell numbers of the depth, and when the bounding cone is
+    too large for a starting depth (start cells = the 12 base cells) **every vertex cell is kept, no hypothesis left**.
+    In the other case the hypothesis that remains, per vertex cell `v`, is exactly `v >>> 2(depth − ds) ∈ roots`. -/
+theorem vertex_cells_kept_real (cfg : Cfg) (depth : Nat) (lls : List (ℝ × ℝ)) (exact : Bool) (b : BMOC)
+    (hne : lls ≠ []) (hr : ∀ ll ∈ lls, 0 ≤ ll.1 ∧ ll.1 < 2 * π ∧ -(π / 2) ≤ ll.2 ∧ ll.2 ≤ π / 2)
+    (h : polygonCoverage cfg depth lls exact = some b) :
+    ∃ (poly : Polygon ℝ) (hs ex : List Nat) (ds : Nat) (roots : List Nat) (cells : List Cell),
+      Polygon.new cfg.debug lls = some poly ∧ poly.vertices = lls.map cooOf ∧
+      (lls.map cooOf).mapM (fun c => Hash.hashV2 cfg depth c.lon c.lat) = some hs ∧ hs.length = lls.length ∧
+      (∀ v ∈ hs, v < 12 * 4 ^ depth) ∧
+      (if exact then specialHashes cfg depth poly else some []) = some ex ∧
+      startCells cfg depth poly = some (ds, roots) ∧ ds ≤ depth ∧
+      b = { dmax := depth, entries := cells.map (encode depth) } ∧
+      (∀ v ∈ hs ++ ex, v >>> ((depth - ds) <<< 1) ∈ roots →
+        ∃ c ∈ cells, c.depth ≤ depth ∧ v >>> ((depth - c.depth) <<< 1) = c.hash) ∧
+      (C2V.hasBestStartingDepth (boundingRadius poly) = false →
+        ∀ v ∈ hs, ∃ c ∈ cells, c.depth ≤ depth ∧ v >>> ((depth - c.depth) <<< 1) = c.hash) :=
+  Hpx.PolyCompose.vertex_cells_kept_real cfg depth lls exact b hne hr h
+
+/-- **T3, every numeric instance, both modes**: the cell of a polygon vertex (`hs`) — and in the exact mode the cell of a
+    special point (`ex`) — lies under a cell of the returned BMOC **as soon as its ancestor at the starting depth is one of
+    the start cells**.  That hypothesis (`v >>> 2(depth − ds) ∈ roots`: the neighbourhood of the bounding-cone centre cell
+    at `best_starting_depth(radius)` contains the vertex) is the geometric fact this development does not prove; it is about
+    `Cone::bounding_cone`, `best_starting_depth` and the size of the cells, not about the descent. -/
+theorem vertex_cells_kept_modes (cfg : Cfg) (depth : Nat) (vertices : List (α × α)) (exact : Bool) (b : BMOC)
+    (h : polygonCoverage cfg depth vertices exact = some b) :
+    ∃ (poly : Polygon α) (hs ex : List Nat) (ds : Nat) (roots : List Nat) (cells : List Cell),
+      Polygon.new cfg.debug vertices = some poly ∧
+      poly.vertices.mapM (fun c => Hash.hashV2 cfg depth c.lon c.lat) = some hs ∧
+      (if exact then specialHashes cfg depth poly else some []) = some ex ∧
+      startCells cfg depth poly = some (ds, roots) ∧ ds ≤ depth ∧
+      b = { dmax := depth, entries := cells.map (encode depth) } ∧
+      ∀ v ∈ hs ++ ex, v >>> ((depth - ds) <<< 1) ∈ roots →
+        ∃ c ∈ cells, c.depth ≤ depth ∧ v >>> ((depth - c.depth) <<< 1) = c.hash :=
+  Hpx.PolyCompose.vertex_cells_kept_modes cfg depth vertices exact b h
+
+/-- **T2, counter-example (ℝ, both profiles, every build).**  The triangle `bulgeLL` (counter-clockwise, strictly convex,
+    inside an open hemisphere, no pole inside; unit vectors rational) and the cell 23 of depth 1 (south vertex on the equator
+    at longitude `π/2`):
+    * `Polygon::new` succeeds; the four vertices returned by `vertices(1, 23)` are strictly inside the three edge
+      half-spaces, `Polygon::contains` answers `true` for the four of them, and **the classifier of `polygon_coverage`
+      answers `full`** for the cell in every descent in which `is_in_list` is false for it (every target depth, every list);
+    * the centre of the cell is strictly inside as well;
+    * yet the position `sph_coo(1, 23, 2/3, 0)` — a point of the cell, on its south-east side — is strictly OUTSIDE the
+      half-space of the edge `A → B`, and `Polygon::contains` answers `false` for it.
+    So even for convex polygons the flag "fully covered" does not mean that the cell is inside the polygon: the sides of a
+    cell are not great-circle arcs and bulge out of the geodesic quadrilateral of its vertices (here by 0.47°; the effect
+    is of second order in the cell size).  On the `Float` instance (the model run that is compared with the crate)
+    `polygon_coverage(depth 1, 2 or 3, this triangle, either mode)` returns the cell `1/23` with the full flag. -/
+theorem full_flag_not_whole_cell (cfg : Cfg) :
+    (∀ ll ∈ bulgeLL, 0 ≤ ll.1 ∧ ll.1 < 2 * π ∧ -(π / 2) ≤ ll.2 ∧ ll.2 ≤ π / 2) ∧ ConvexNoPole 1 (bulgeLL.map cooOf) ∧
+    ∃ poly : Polygon ℝ, Polygon.new cfg.debug bulgeLL = some poly ∧
+      (∀ (target : Nat) (srt : List Nat) (l : Nat), isInList 1 23 target srt = false →
+        polyClassifier cfg target poly srt 1 23 l = some .full) ∧
+      (∃ s e n w : ℝ × ℝ, Hash.vertices (α := ℝ) cfg 1 23 = some [s, e, n, w] ∧
+        ∀ v ∈ [s, e, n, w], InsideAll 1 (bulgeLL.map cooOf) (cooOf v) ∧
+          ∃ c, fromSphCoo cfg.debug v.1 v.2 = some c ∧ poly.contains c = true) ∧
+      (∃ ctr : ℝ × ℝ, Hash.center (α := ℝ) cfg 1 23 = some ctr ∧ InsideAll 1 (bulgeLL.map cooOf) (cooOf ctr)) ∧
+      ∃ (m : ℝ × ℝ) (c : Coo ℝ), Hash.sphCoo (α := ℝ) cfg 1 23 (2 / 3) 0 = some m ∧
+        fromSphCoo cfg.debug m.1 m.2 = some c ∧ poly.contains c = false ∧ ¬ InsideAll 1 (bulgeLL.map cooOf) (cooOf m) :=
+  Hpx.PolyCompose.full_flag_not_whole_cell cfg
+
+
+end Composed
 
 end Hpx.C12
